@@ -115,13 +115,13 @@ CHECKS = {
               'order in which results are released. The same inputs are encoded with logical processors 0,1,2,3,4,8,16, pinned/unpinned and socket 0; packets and recon must be byte-identical.'),
         note='Partial: whether some coding decision reads the core count or a segment count is observed on the scenarios run (CQP; VBR/CVBR excluded because of finding D15), not proved.'),
     'C21': dict(
-        category='other', design_ref='DESIGN.md §6 C21',
-        technique='Coq theorem on a model of the input copy and padding regeneration (all sizes, strides, borders) + metamorphic encodes across caller buffer layouts',
+        category='proof', design_ref='DESIGN.md §6 C21',
+        technique='Coq theorem on a model of the input copy and padding regeneration (all sizes, strides, borders), the extracted model run against the real copy / pad functions plane by plane + metamorphic encodes across caller buffer layouts',
         text=('c21_copy_pad_visible_only: for every picture size, block-aligned size, border widths and stride between the width and the regenerated area, the internal picture after copy + in-place padding regeneration '
-              '(every sample, borders included) is a function of the visible samples only, whatever the stride padding and the previous buffer content. On the real encoder the same visible pictures are submitted tightly packed '
+              '(every sample, borders included) is a function of the visible samples only, whatever the stride padding and the previous buffer content. The extracted model is compared, sample for sample, with the real row copy (memcpy of `stride` bytes, as copy_frame_buffer does) + pad_input_picture + generate_padding '
+              'on 400 (quick) generated planes with random garbage in the internal buffer and in the stride padding (aligned / unaligned sizes, zero and non-zero borders, strides from the width up to the regenerated area). On the real encoder the same visible pictures are submitted tightly packed '
               'and with strides +1/+8/+32/+64 whose padding holds zeros, 0xFF or random bytes, buffers scribbled and freed right after send_picture; packets and recon must be byte-identical (8 and 10 bit, sizes that are and are not multiples of 8/64).'),
-        note=('Partial: the model is a transcription of the copy/pad structure (row copy of `stride` samples, pad_input_picture(s), generate_padding), tied to the code only through the metamorphic runs; that every later stage '
-              'reads the internal picture only is observed, not proved.')),
+        note=('Trusted: Coq kernel; extraction + OCaml driver; harness/unit/pad_harness.c reproduces the copy loop of copy_frame_buffer (the 8-bit path; 10-bit packing is covered by the metamorphic runs only). That every later stage reads the internal picture only is observed by the metamorphic runs, not proved.')),
     'C27': dict(
         category='proof', design_ref='DESIGN.md §6 C27',
         technique='Coq theorems: abstract hand-off model (all call orders) + pool sizes regenerated from the C source proved to cover the pipeline window; correspondence of the regenerated model with the real function; pacing patterns on the real encoder',
